@@ -22,10 +22,11 @@ RULE = (
     "E3 explicit-state session exploration on the real library. Alphabet: compose, compose_tactics, quotient, "
     "quotient_tactics, merge, refines (contracts and lists), rename_variable, rename_variables, copy, list simplify, "
     "elim_vars_by_refining/relaxing, optimize, get_variable_bounds, to_machine_dict, from_dict, to_dict, from_strings, parse, "
-    "is_empty, list union/difference; argument tuples = every admissible tuple from a typed pool (contracts, term lists, "
+    "is_empty, contains_behavior, evaluate, list union/difference, compound-contract merge / == / membership / to_dict, file "
+    "write+read in both representations; argument tuples = every admissible tuple from a typed pool (contracts, term lists, "
     "tactic-order lists, keep lists, strings, dictionaries) seeded with 6 contracts, 4 lists, 3 order lists, 3 keep lists; "
-    "results are added to the pool (construction depth: quick 2 layers with <=6 new contracts/lists per layer, thorough 3 "
-    "layers with <=12), so later calls run on objects produced by earlier ones. Each worker process is one long session "
+    "results are added to the pool (construction depth: quick 2 layers with <=6 new contracts/lists per layer, thorough 4 "
+    "layers with <=16), so later calls run on objects produced by earlier ones. Each worker process is one long session "
     "(history) executing its shard of the transitions in order, followed by a pair-adjacency history in which every ordered "
     "pair of operation kinds is adjacent. Per transition: (1) pool and hidden-state fingerprints unchanged; (2) mutable "
     "nodes of the result identity-disjoint from pool and globals, and mutating the result leaves the pool fingerprint "
@@ -90,12 +91,38 @@ def do_call(op, a):  # noqa: C901
         return a[0] | a[1]
     if op == "l_sub":
         return a[0] - a[1]
+    if op == "contains":
+        return a[0].contains_behavior(a[1])
+    if op == "evaluate":
+        return a[0].evaluate(a[1])
+    if op == "cc_merge":
+        return a[0].merge(a[1])
+    if op == "cc_eq":
+        return a[0] == a[1]
+    if op == "cc_contains":
+        return a[0].a.contains_behavior(a[1])
+    if op == "cc_to_dict":
+        return a[0].to_dict()
+    if op == "write_read":
+        import os
+        import tempfile
+
+        from pacti.utils.fileio import read_contracts_from_file, write_contracts_to_file
+
+        fd, fn = tempfile.mkstemp(prefix="pvc13_", suffix=".json")
+        os.close(fd)
+        try:
+            write_contracts_to_file([a[0]], ["c"], fn, machine_representation=a[1])
+            cs, names = read_contracts_from_file(fn)
+            return [cs[0], names]
+        finally:
+            os.remove(fn)
     raise ValueError("unknown op " + op)
 
 
 OPKINDS = ["compose", "compose_tactics", "quotient", "quotient_tactics", "merge", "refines", "l_refines", "rename", "rename_variables", "copy",
            "l_simplify", "elim_refine", "elim_relax", "optimize", "bounds", "to_machine_dict", "from_dict", "to_dict", "from_strings", "parse",
-           "is_empty", "l_or", "l_sub"]
+           "is_empty", "l_or", "l_sub", "contains", "evaluate", "cc_merge", "cc_eq", "cc_contains", "cc_to_dict", "write_read"]
 
 
 def seed_pool():
@@ -128,6 +155,13 @@ def seed_pool():
     P["S:e2"] = "x - y = 2"
     P["S:bad"] = "x + + y <= 1"
     P["S:obj"] = "2i - o"
+    from pacti.contracts import PolyhedralIoContractCompound as CC
+
+    P["CC:a"] = CC.from_strings([["i <= 1"], ["i >= 2", "i <= 3"]], [["o <= 1"], ["o >= 2", "o <= 5"]], ["i"], ["o"])
+    P["CC:b"] = CC.from_strings([["i <= 0"], ["i >= 1", "i <= 2"]], [["o <= 4"]], ["i"], ["o"])
+    P["BH:xyz"] = {Var("x"): 0.5, Var("y"): 1.0, Var("z"): 2.0}
+    P["BH:i"] = {Var("i"): 2.5}
+    P["D:mach"] = P["C:prod"].to_machine_dict()
     P["D:str"] = {"input_vars": ["i"], "output_vars": ["o"], "assumptions": ["|i| <= 2"], "guarantees": ["o <= 3i + 1", "o >= 0"]}
     return P
 
@@ -176,6 +210,18 @@ def transitions(pool, fresh_names, layer):
                     T.append(("elim_relax", (l1, l2, kv, "B:" + str(s), o)))
     for l1 in Ls:
         T.append(("is_empty", (l1,)))
+        T.append(("contains", (l1, "BH:xyz")))
+        T.append(("evaluate", (l1, "BH:xyz")))
+    CCs = by_type(pool, "CC")
+    for c1, c2 in itertools.product(CCs, repeat=2):
+        T.append(("cc_merge", (c1, c2)))
+        T.append(("cc_eq", (c1, c2)))
+    for c1 in CCs:
+        T.append(("cc_contains", (c1, "BH:i")))
+        T.append(("cc_to_dict", (c1,)))
+    for c in Cs:
+        for mrep in (True, False):
+            T.append(("write_read", (c, "B:" + str(mrep))))
     for d in Ds:
         T.append(("from_strings" if d.startswith("D:str") else "from_dict", (d,)))
     for s in Ss:
@@ -348,8 +394,8 @@ def explore(tier, seed):
         p = ctx.Process(target=_worker, args=(w, nw, tier, b))
         p.start()
         procs.append((p, a))
-    layers = 2 if tier == "quick" else 3
-    cap = 6 if tier == "quick" else 12
+    layers = 2 if tier == "quick" else 4
+    cap = 6 if tier == "quick" else 16
     new = []
     known = set()
     space = 0
